@@ -88,11 +88,25 @@ JOBS += [Job(b["name"], "mtest.c.in", enforce=b["name"], bodies=BODIES_M, min_ob
              expect_labels=["pass-implies-finite-and-within-eps", "within-eps-implies-pass"]) for b in BODIES_M]
 
 
+AT = [{"name": "abscissas.at(k) -> abscissas[k]", "re": r"\b(abscissas|ordinates)\.at\(([^)]+)\)", "sub": r"\1[\2]", "min": 4},
+      {"name": "no vector access may remain", "forbid": r"\.at\("}]
+BODIES_A = [
+    dict(name="area_row", file=T + "AreaComparison.cxx", pattern=r"static double trapezoidalIntegration\(.*?for (?=\(std::vector<double>::size_type i = 0;)", rules=AT),
+    dict(name="area_decide", file=T + "AreaComparison.cxx", what="match",
+         pattern=r"areaValue /= maxValueA;.*?if \(areaValue > this->prec\) \{\s*s = false;\s*\}",
+         rules=[{"name": "members", "re": r"this->prec\b", "sub": "prec", "min": 1, "max": 1}]),
+]
+JOBS += [Job("area_row", "area.c.in", enforce="area_row", bodies=BODIES_A, min_obligations=2, backend=FP, needs=["area_row"],
+             expect_labels=["identical-curves-keep-a-zero-area", "row-adds-the-trapezoid"]),
+         Job("area_decide", "area.c.in", enforce="area_decide", bodies=BODIES_A, min_obligations=2, backend=FP, needs=["area_decide"],
+             expect_labels=["fails-when-the-normalised-area-exceeds-the-tolerance", "zero-area-is-accepted"])]
+
+
 def run(ctx):
     ctx.assume("tolerances are finite and non-negative (requires); columns have at most 2^20 rows (object-size bound of the verifier, not of the argument: the loop contract is independent of n)",
                "the documented tolerance is evaluated with the same double expression as the code, so obligations isolate the decision (comparison direction, NaN/inf handling), not rounding",
                "log/message statements are deleted by must-fire rules; Comparison::success starts true (Comparison constructors)",
-               "AreaComparison is excluded (vector insert + interpolation objects): out of reach, stated in DESIGN.md",
+               "AreaComparison: only the trapezoid row and the normalise-and-decide kernel are under contract (area.c.in); its interpolation/insertion loops, the whole trapezoid loop, the maximum search and the propagation of !s to success are not verified",
                "universal statements over rows are proved through a ghost row index k (for `success`) and a ghost failing-row witness g_w set next to `s = false` (for `failure`)")
     run_jobs(ctx, JOBS, replay_fn=replay)
 
